@@ -46,13 +46,14 @@ def minimise(x, terms):
 
 
 def mk(docs, job, cfg):
+    cfg = dict(cfg, **job.get('cfg', {}))
     x = engine.mk_exec(docs, cfg)
     skel = parse_skel(job['skel'])
     conc = job.get('concrete')          # {'sizes': [...], 'budgets': [...], 'offsets': [...]} -> concrete mode
     fd = job.get('backend', 'fd') == 'fd'
     consistency = job.get('consistency', 'StrictlyAtOnce')
     oracles = set(cfg.get('oracles', ['C01', 'C03', 'C15']))
-    sizecap = cfg.get('sizecap', engine.SIZECAP)
+    sizecap = job.get('sizecap', cfg.get('sizecap', engine.SIZECAP))
 
     def driver(x):
         engine.new_world(x, fd_backend=fd)
@@ -71,10 +72,13 @@ def mk(docs, job, cfg):
         obs = []            # predicted observations, one per op
         ops_out = []        # replay script ops (sizes as var names)
 
-        def fresh_size():
+        def fresh_size(oversize=False):
             i = len(sizes)
             if conc:
                 s = BV(bv64(conc['sizes'][i]), 64)
+            elif oversize:
+                s = x.symbv('size%d' % i)
+                x.solver.add(z3.UGT(s.t, 2 ** 30 - 256), z3.ULE(s.t, 2 ** 30 + 2 ** 20))
             else:
                 s = x.symbv('size%d' % i)
                 x.solver.add(z3.ULE(s.t, sizecap))
@@ -91,17 +95,23 @@ def mk(docs, job, cfg):
         for i, (kind, topic, n) in enumerate(skel):
             q = queues.setdefault(topic, [])
             d = delivered.setdefault(topic, 0)
-            if kind in ('a', 'A'):
+            if kind in ('a', 'A', 'r', 'L'):
                 ents = []
+                wtopic = topic
+                if kind == 'L':
+                    wtopic = topic * 240          # a topic name that does not fit the 256-byte entry header
+                    queues.setdefault(wtopic, [])
+                    delivered.setdefault(wtopic, 0)
+                    q = queues[wtopic]
                 for _ in range(n):
-                    s = fresh_size()
+                    s = fresh_size(oversize=(kind == 'r'))
                     ents.append((uid, s))
                     uid += 1
-                if kind == 'a':
-                    res = engine.api(x, w, 'append_for_topic', [PStr(topic), engine.payload(ents[0][0], ents[0][1].t)])
+                if kind != 'A':
+                    res = engine.api(x, w, 'append_for_topic', [PStr(wtopic), engine.payload(ents[0][0], ents[0][1].t)])
                 else:
-                    res = engine.api(x, w, 'batch_append_for_topic', [PStr(topic), VVec([engine.payload(u, s.t) for u, s in ents])])
-                ops_out.append(dict(op='append' if kind == 'a' else 'batch_append', topic=topic,
+                    res = engine.api(x, w, 'batch_append_for_topic', [PStr(wtopic), VVec([engine.payload(u, s.t) for u, s in ents])])
+                ops_out.append(dict(op='append' if kind != 'A' else 'batch_append', topic=wtopic,
                                     entries=[dict(uid=u, len='size%d' % sizes.index(s)) for u, s in ents]))
                 if res.variant == 'Ok':
                     q.extend(ents)
@@ -111,6 +121,17 @@ def mk(docs, job, cfg):
                     return fail('panic', i, 'append panicked: %s' % res.f[0])
                 else:
                     obs.append(dict(err=engine.errkind(x, res)))
+                if 'C15' in oracles and kind in ('r', 'L'):
+                    # a failed append must not change any count
+                    for tt in sorted(queues):
+                        c = engine.api(x, w, 'get_topic_entry_count', [PStr(tt)])
+                        cv = x.tobv(c).t
+                        exp = len(queues[tt]) - delivered[tt]
+                        if x.sat(cv != exp):
+                            x.solver.add(cv != exp)
+                            ops_out.append(dict(op='count', topic=tt))
+                            obs.append(dict(count=exp))
+                            return fail('count', i, 'count of %s after a failed append differs from appended-consumed=%d' % (tt[:8], exp))
                 continue
             if kind == 'c':
                 c = engine.api(x, w, 'get_topic_entry_count', [PStr(topic)])
@@ -130,7 +151,11 @@ def mk(docs, job, cfg):
                     ops_out.append(dict(op='open'))
                     obs.append(dict(ok=True))
                 w = None
-                r = engine.open_walrus(x, consistency, pe)
+                try:
+                    r = engine.open_walrus(x, consistency, pe)
+                except Panic as p:
+                    obs.append(dict(panic=True))
+                    return fail('panic', i, 'reopen panicked: %s' % p)
                 if r.variant != 'Ok':
                     obs.append(dict(err='open'))
                     return fail('reopen-failed', i, 'reopen returned Err')
@@ -148,13 +173,15 @@ def mk(docs, job, cfg):
                 if kind == 'B':
                     budget = BV(bv64(MAXU), 64)
                 elif conc:
-                    budget = BV(bv64(conc['budgets'][j]), 64)
+                    budget = BV(bv64(conc['budgets'][sum(1 for b in budgets if b is not None and not getattr(b, 'is_max', False))]), 64)
                 else:
                     budget = x.symbv('budget%d' % j)
+                if kind == 'B':
+                    budget.is_max = True
                 budgets.append(budget)
                 vars_.append(('budget%d' % j, budget.t))
                 res = engine.api(x, w, 'batch_read_for_topic', [PStr(topic), budget, checkpoint, NONE])
-                ops_out.append(dict(op='batch_read', topic=topic, checkpoint=checkpoint, budget='budget%d' % j))
+                ops_out.append(dict(op='batch_read', topic=topic, checkpoint=checkpoint, budget=(MAXU if kind == 'B' else 'budget%d' % j)))
             if res.variant == 'Panic':
                 obs.append(dict(panic=True))
                 return fail('panic', i, 'read panicked: %s' % res.f[0])
